@@ -9,7 +9,7 @@ ENTRY = {
          "n_quick": 30000, "seeds_quick": 2, "n_thorough": 200000, "seeds_thorough": 8, "search_seeds": 2},
     ],
     "level_text": "Kernel-checked Lean theorems over every beacon-node oracle (each call may fail or answer anything), every configuration, every clock value at which the ticker starts and every finite sequence of clock advances (all missed-tick patterns) and chain-reorg events: no duty (slot,type) is triggered twice and slots are handled in strictly increasing order; every triggered definition is an assignment the beacon node already gave for that slot and duty type to a validator it named as an active cluster validator with that pubkey; every trigger carries not-before = slot start + offset(type) (1/3, 2/3, 2/3, else 0); if the slot's epoch is resolved when the slot is handled and the beacon node's answers for an epoch do not change between retries, every assignment of that slot is triggered with a definition set equal to the beacon node's assignments restricted to active cluster validators. Head-event path (feature flags FetchAttOnBlock / FetchAttOnBlockWithDelay, every combination; Props/C15Head.lean), for every sequence of clock advances, timer firings, head events for any slot (past, future, skipped, unresolved, repeated) and reorg events in any order: a head event never triggers a duty and never changes what scheduleSlot hands out (the run projects onto the base model, so all theorems above hold with head events); the slot's own attester trigger is delivered at most once, with the definition set scheduleSlot read, never before slot start + 1/3 slot (+ 300 ms with the delay flag), and has been delivered once that deadline has passed; a head event only starts the early fetch (FetchOnly) — for which the code has no time bound, by design of the feature — and only for a slot with a stored attester definition set (resolved epoch, assigned active cluster validators, every definition justified by a beacon-node answer), at most once per bookkeeping entry and never after the slot's own trigger unless the entry was trimmed (resolution of an epoch >= 3 later, or an effective reorg event, after which a second early fetch is by design); an effective trim removes every entry up to the end of the trimmed epoch; with both flags off nothing changes. GetDutyDefinition (isResolvingEpoch / getEpochResolvedChan / isEpochResolved / isEpochTrimmed) is modelled including calls made while resolveDuties runs. The model is tied to core/scheduler by lock-step differential correspondence with the real Scheduler, the real newSlotTicker under a fake clock and the real delaySlotOffset over a scripted beacon node.",
-    "level_note": "Trusted: Lean kernel, the Go correspondence harness and line driver, clockwork fake-clock semantics; Run()'s select loop is replaced by the harness handing each slot of the real ticker to emitCoreSlot+scheduleSlot (hook HandleSlotVerif); goroutine timing of the asynchronous trigger is abstracted (the delay function is injected and records the not-before instant).",
+    "level_note": "Trusted: Lean kernel, the Go correspondence harness and line driver, clockwork fake-clock semantics; in stream sched Run()'s select loop is replaced by the harness handing each slot of the real ticker to emitCoreSlot+scheduleSlot (hook HandleSlotVerif), stream schedrun (fifth session) drives the real Run(); goroutine timing of the asynchronous trigger is abstracted (the delay function is injected and records the not-before instant).",
     "trusted_base": [
         "model CharonV/Model/Sched.lean mirrors scheduleSlot, resolveDuties, resolveAtt/Pro/SyncCommDuties, setDutyDefinition, trimDuties, HandleChainReorgEvent, delaySlotOffset/slotOffsets, newSlotTicker; tied by lock-step correspondence (triggers with definition sets and not-before instants, resolvedEpoch, sizes of duties/dutiesByEpoch after every op)",
         "hook core/scheduler/verif_export.go (build tag verif): constructor with fake clock and injectable delay function, newSlotTicker, per-slot handler = body of Run's loop, read-only snapshot",
@@ -49,3 +49,15 @@ ENTRY["assumptions"] = ENTRY["assumptions"] + _vc.ASSUMPTIONS + [
     "the model follows the code as it is (taint), the driver counts such episodes as observed:shared_map_mutated and does not report "
     "them; candidate hardening fixes/C15-valcache-clone.diff (theorem hit_returns_same_fixed)"]
 ENTRY["level_text"] += _vc.LEVEL_TEXT
+
+# Fifth session: Run itself — waitChainStart / waitBeaconSync, the slot ticker hand-over, the select over ticks / stop, slot
+# subscribers, the builder-registration submission once per epoch — on top of Model/Sched.lean: Model/SchedRun.lean, theorems
+# Props/C15Run.lean, stream schedrun (the real Run() in its own goroutine, every blocking point a gate answered by the next op).
+from vlib import snippet_C15run as _sr
+ENTRY["streams"] = ENTRY["streams"] + [_sr.STREAM]
+ENTRY.setdefault("lean_props_extra", []).append(_sr.EXTRA_LEAN)
+if ENTRY.get("monitor_sigs"):
+    ENTRY["monitor_sigs"] = ENTRY["monitor_sigs"] + [m for m in _sr.MONITOR_SIGS if m not in ENTRY["monitor_sigs"]]
+ENTRY["trusted_base"] = ENTRY["trusted_base"] + _sr.TRUSTED_BASE
+ENTRY["assumptions"] = ENTRY["assumptions"] + _sr.ASSUMPTIONS + list(getattr(_sr, "OBSERVATIONS", []))
+ENTRY["level_text"] += _sr.LEVEL_TEXT
